@@ -36,7 +36,8 @@ def apply_sar_adc(
     -------
     ndarray
     """
-    data_digitized_2d = np.zeros((num_rows, num_cols))
+    # Use integers, a float cannot hold 2^adc_bits - 1 for more than 53 bits
+    data_digitized_2d = np.zeros((num_rows, num_cols), dtype=get_dtype(adc_bits))
 
     signal_normalized_2d = signal_2d.copy()
 
@@ -44,9 +45,9 @@ def apply_sar_adc(
     ref: float = max_volt / 2.0
 
     # For each bits, compare the value of the ref to the capacitance value
-    for i in np.arange(adc_bits):
+    for i in range(adc_bits):
         # digital value associated with this step
-        digital_value = 2 ** (adc_bits - (i + 1))
+        digital_value: int = 2 ** (adc_bits - (i + 1))
 
         # All data that is higher than the ref is equal to the dig. value
         data_digitized_2d[signal_normalized_2d >= ref] += digital_value
@@ -57,8 +58,7 @@ def apply_sar_adc(
         # Divide reference voltage by 2 for next step
         ref /= 2.0
 
-    dtype = get_dtype(adc_bits)
-    return data_digitized_2d.astype(dtype)
+    return data_digitized_2d
 
 
 # TODO: documentation, range volt - only max is used
